@@ -164,7 +164,8 @@ def gen_run_transparency(tier):
     cuts = [3, 4, 5, 9, 10, 20, 21, 22, 60, 95, 99, 100] if tier == 'quick' else list(range(1, data_len))
     for c in cuts:
         yield {'what': 'split_write', 'cut': c}
-    for words in (['-g'], ['--gdb', 'x'], ['-lg'], ['-r', '-p'], ['a b', '-Cg', '--run'], ['-f', 'wl_pointer', '-l', 'file'], []):
+    for words in (['-g'], ['--gdb', 'x'], ['-lg'], ['-r', '-p'], ['a b', '-Cg', '--run'], ['-f', 'wl_pointer', '-l', 'file'], [],
+                  ['--title', '', '-f', 'x'], ['', ''], ['x', '']):
         yield {'what': 'arguments', 'words': words}
     # a bare program name is looked up on PATH by the system and reaches the program as typed
     yield {'what': 'arguments', 'words': ['x'], 'program': 'sh'}
